@@ -29,9 +29,12 @@ let rec parse_head toks (salt, reqs) =
   match toks with
   | "q" :: lane :: tmo :: delay :: _start :: _hf :: rest ->
     (* ffffffffffffffff = a timeout of zero is configured *)
+    let tmo_s = tmo in
     let zero = String.lowercase_ascii tmo = "ffffffffffffffff" in
     let tmo = n tmo in
-    let q = { Model.q_lane = n lane; q_tmo = (if zero then Some Model.N0 else if tmo = Model.N0 then None else Some tmo); q_delay = n delay } in
+    (* fffffffffffffffe = a timeout of Duration::MAX is configured: it bounds nothing *)
+    let huge = String.lowercase_ascii tmo_s = "fffffffffffffffe" in
+    let q = { Model.q_lane = n lane; q_tmo = (if zero then Some Model.N0 else if huge || tmo = Model.N0 then None else Some tmo); q_delay = n delay } in
     parse_head rest (salt, q :: reqs)
   | "s" :: _t :: _k :: rest -> parse_head rest (salt, reqs)
   | [] -> { Model.c_salt = salt; c_reqs = List.rev reqs }
